@@ -1,6 +1,8 @@
 //! C04.reelab: re-elaboration of the exported program, node by node.
 //!
 //! request : C04.reelab \t <source, one line> \t <ctx> \t <ir>
+//!           (C04.accept \t <source> \t - \t - : the same run, reported under this op when the front end refuses the emitted
+//!            text — there is no second IR to compare and the model has no side)
 //!   ctx   : `vars=<id>:<emitted name>:<type>,...;globs=<id>:<name>:<type>:v,...;funcs=<id>:<name>,...;target=0`
 //!   ir    : s-expressions of every user function of the FIRST generation (as in C01.fn)
 //!   (on `--requests` replay only the source is read; ctx and ir are recomputed)
@@ -126,6 +128,10 @@ impl Gen1 {
     }
     /// expression with ids replaced by emitted names; `values` = keep the payload of constants
     fn expr(&self, e: &Sx, values: bool) -> String {
+        // an expression position that calls an intrinsic function is outside the model (as a whole position)
+        if !values && e.contains_head("intr") {
+            return "(unsupported)".to_string();
+        }
         let sub = |xs: &[Sx]| xs.iter().map(|x| self.expr(x, values)).collect::<Vec<_>>().join(" ");
         match e.head() {
             "lit" => {
@@ -298,7 +304,7 @@ pub fn run_source(src: &str, out: &mut Out, hist: &mut Hist) {
     let g1 = analyse(&ir1, &mut h1);
     let ir_text = g1.funcs.iter().map(|f| f.2.show()).collect::<Vec<_>>().join(" ");
     let req = format!("C04.reelab\t{}\t{}\t{}", src1, g1.ctx(), ir_text);
-    let unsupported = g1.funcs.iter().any(|f| f.2.contains_head("unsupported") || f.2.contains_head("intr"))
+    let unsupported = g1.funcs.iter().any(|f| f.2.contains_head("unsupported"))
         || g1.vars.iter().any(|v| v.2 == "unsupported")
         || g1.globs.iter().any(|v| v.2 == "unsupported");
     let text1 = match compile_src(src, Tgt::Dx, Mode::NoPipeline) {
@@ -316,9 +322,11 @@ pub fn run_source(src: &str, out: &mut Out, hist: &mut Hist) {
     let ir2 = match guard(|| front_end_src(&text1)) {
         Ok(Ok(m)) => m,
         Ok(Err(e)) => {
+            // the parser / type checker refused the emitted text: the elaboration model has nothing to predict here
+            // (its hypothesis is that the text was read), so the case is reported under its own op, which has no model side
             hist.add("reelab:output-rejected");
             out.case(
-                &req,
+                &format!("C04.accept\t{}\t-\t-", src1),
                 &format!("rejected:{}", e.stage()),
                 &format!("FAIL:emitted HLSL is rejected ({}): {}", e.stage(), one_line(&e.text().chars().take(400).collect::<String>())),
             );
@@ -340,7 +348,7 @@ pub fn run_source(src: &str, out: &mut Out, hist: &mut Hist) {
         }
     }
     // ---- observation: skeleton of the second generation
-    let obs = if unsupported || g2.funcs.iter().any(|f| f.2.contains_head("unsupported") || f.2.contains_head("intr")) {
+    let obs = if unsupported || g2.funcs.iter().any(|f| f.2.contains_head("unsupported")) {
         hist.add("reelab:unsupported");
         "unsupported".to_string()
     } else {
